@@ -5,9 +5,10 @@ import FordModel.Url
 import FordModel.StrLink
 import FordModel.ReadMore
 import FordModel.Relurl
+import FordModel.Assets
 import FordModel.Generated.C09
 namespace Ford
-open Proto Ford.Path Ford.Nav Ford.Url Ford.StrLink Ford.ReadMore Ford.Relurl Ford.Generated.C09
+open Proto Ford.Path Ford.Nav Ford.Url Ford.StrLink Ford.ReadMore Ford.Relurl Ford.Assets Ford.Generated.C09
 
 namespace C09D
 
@@ -48,6 +49,44 @@ def optOf (flag text : Str) : Option Str := if flag == ['1'] then some text else
 
 /-- a file system known at one point: `real p = rp` -/
 def pointFS (p rp : List Seg) : FS := { real := fun q => if q = p then rp else q }
+
+/-- fields `d:<key>=<value>`: values of the dynamic path pieces -/
+def dynOf (fs : List Str) : Str → Str :=
+  let ds := fs.filterMap fun f => match f with
+    | 'd' :: ':' :: r => let (k, v) := splitEq r; some (k, v)
+    | _ => none
+  fun k => (Url.lookup k ds).getD ('{' :: k ++ ['}'])
+
+def showPieces (ps : List Piece) : Str :=
+  ps.flatMap fun p => match p with
+    | .lit t => t
+    | .dyn k => '{' :: k ++ ['}']
+
+def guardStr : CopyGuard → Str
+  | .always => s "always"
+  | .indexOnly => s "indexOnly"
+  | .nonIndexOnly => s "nonIndexOnly"
+  | .never => s "never"
+
+/-- `n` then `n` fields -/
+def takeCounted (fs : List Str) : List Str × List Str :=
+  match fs with
+  | k :: r => (r.take (natOf k), r.drop (natOf k))
+  | [] => ([], [])
+
+/-- `nItems`, then per item `name`, `nFiles`, files; fuel = number of fields -/
+def itemsOf : Nat → Nat → List Str → List (Seg × List (List Seg)) × List Str
+  | 0, _, fs => ([], fs)
+  | _, 0, fs => ([], fs)
+  | fuel + 1, n + 1, fs =>
+    match fs with
+    | name :: r =>
+      let (files, rest) := takeCounted r
+      let (more, rest') := itemsOf fuel n rest
+      ((name, files.map splitSlash) :: more, rest')
+    | [] => ([], [])
+
+def locOf (l : Str) : List Seg := if l == ['.'] || l == [] then [] else splitSlash l
 
 end C09D
 
@@ -137,6 +176,34 @@ def dispatchC09 : List Str → Option (List Str)
              (if relurlTables.relurlResolves then ['1'] else ['0']),
              (match summaryTables.rule with | .cutIfUrl => s "cutIfUrl" | .cutAlways => s "cutAlways"),
              (if summaryTables.linkNeedsUrl then ['1'] else ['0']) ]
+    else if cmd == s "c09.assetcheck" then
+      some (s "ok" :: assetTables.links.map fun l =>
+        l.tpl ++ '|' :: l.tag ++ '|' :: l.attr ++ '|' :: showPieces l.path ++ '|' ::
+          (if linkOk assetTables l then ['1'] else ['0']))
+    else if cmd == s "c09.assets" then
+      -- template, then shape fields (`o:`) and dynamic values (`d:`): the asset links the template emits
+      match args with
+      | tpl :: fs =>
+        let ρ := dynOf fs
+        some (s "ok" :: (emitted assetTables (shapeOf fs) tpl).map fun l =>
+          l.tag ++ '|' :: l.attr ++ '|' :: inst ρ l.path)
+      | _ => some [s "bad-request"]
+    else if cmd == s "c09.assetwritten" then
+      some (s "ok" :: written assetTables (shapeOf args) (dynOf args))
+    else if cmd == s "c09.aliases" then
+      some (s "ok" :: assetTables.aliases.map fun a =>
+        a.1 ++ '|' :: showPieces a.2 ++ '|' :: (if aliasOk assetTables a then ['1'] else ['0']))
+    else if cmd == s "c09.pagecheck" then
+      some [ guardStr pageTables.copyGuard, guardStr pageTables.filesGuard,
+             (if pageTables.copyGuard == .always && pageTables.filesGuard.runs true then ['1'] else ['0']) ]
+    else if cmd == s "c09.pagecopy" then
+      -- location, stem, nItems, (name, nFiles, files…)*, nFiles, files…
+      match args with
+      | loc :: stem :: n :: fs =>
+        let (items, rest) := itemsOf fs.length (natOf n) fs
+        let (files, _) := takeCounted rest
+        some (s "ok" :: (pageWrites pageTables ⟨locOf loc, stem, items, files⟩).map render)
+      | _ => some [s "bad-request"]
     else if cmd == s "c09.quote" then
       match args with
       | [x] => some [quote x]
